@@ -22,6 +22,8 @@ func checkC12(c *Ctx) {
 	c.Rule("C12-R8", "the rune parser, which runs before the mouse parsers, removes input only as decoded characters (with an event, or by the decoder's count): an 8-bit CSI (0x9b) it cannot decode stays in the buffer for the mouse parsers")
 	c.Rule("C12-R9", "a mouse report consumes exactly the bytes it matched (both protocols): the next report of a drag starts where this one ended")
 	c.Expect("C12-R9", 2)
+	c.Rule("C12-R12", "the button-held flag is stored by the mouse parsers only (a mode helper that clears it makes a drag in progress lose its button)")
+	c.Expect("C12-R12", 1)
 	c.Rule("C12-R11", "the numbers of an SGR report are read as decimal (val*10 + digit) and a leading minus negates the field it belongs to, once, where the field ends")
 	c.Expect("C12-R11", 2)
 	c.Rule("C12-R10", "every mouse report decodes to one event: no complete-return of a mouse parser is reachable without the append (no report is filtered away after decoding: drags carry the motion bit, too)")
@@ -50,6 +52,7 @@ func checkC12(c *Ctx) {
 	c12Table(c, p)
 	c12Accumulators(c, p, sgr)
 	c12Digits(c, p, sgr)
+	checkFieldWriters(c, p, "C12-R12", "tScreen", "buttondn", "parseSgrMouse", "parseXtermMouse")
 	checkChunkOwnership(c, p, "C12-R7")
 	for _, pi := range inputParsers(p) {
 		if pi.fn.Name() == "parseRune" {
